@@ -6,8 +6,10 @@
 -/
 import PydapModel.Dap4
 import Proofs.Dap4
+import Proofs.DmrOrder
+import Props.C11
 namespace Pydap.C10
-open Pydap.Dap4
+open Pydap.Dap4 Pydap.Dmr
 
 /-- the chunk-type field written by a conforming sender is read back flag for flag -/
 theorem C10_chunktype (last error little : Bool) :
@@ -52,8 +54,9 @@ theorem C10_decode_layout (little : Bool) (ss : List Sent) (h : ∀ s ∈ ss, Se
 
 /-- **Whole response**: DMR chunk + any chunking of the serialised variables, either byte order: the
     client recovers the DMR text, the byte order and every value, provided the variables are visited in
-    the order they were serialised (`layoutsOf dmr`; see `C10_decode_order` for that order). -/
-theorem C10_response (little : Bool) (layoutsOf : Bytes → Except Err (List Layout))
+    the order they were serialised (`layoutsOf dmr`; `C10_decode_order` proves that order,
+    `C10_response_document_order` composes the two). -/
+theorem C10_response (little : Bool) (layoutsOf : Bytes → Except Dap4.Err (List Layout))
     (dmr : Bytes) (ss : List Sent) (chunks : List Bytes)
     (hd : dmr.length < 2 ^ 24) (hl : layoutsOf dmr = .ok (ss.map Sent.layout))
     (hs : ∀ s ∈ ss, SentOk s) (hc : ∀ c ∈ chunks, c.length < 2 ^ 24)
@@ -61,6 +64,55 @@ theorem C10_response (little : Bool) (layoutsOf : Bytes → Except Err (List Lay
     unpackResponse true layoutsOf (encodeResponse little dmr chunks)
       = .ok (dmr, little, ss.map fun s => ⟨s.values, some (swapped little s.checksum)⟩) :=
   unpackResponse_encode little layoutsOf dmr ss chunks hd hl hs hc hp
+
+/-- **Decode order = document order**: for every abstract DMR spec — groups nested to any depth, variables and
+    groups interleaved in any order (a variable declared after a sibling group included) — that is locally well
+    formed, whose `Dim` references resolve, and in which no two declarations (groups, variables; dimensions) share
+    a full path: the order in which `unpack_dap4_data` consumes the variables (`walk` order of the dataset tree
+    assembled by `dmr_to_dataset`, groups created first, re-sorted by position in `get_variables`) is exactly
+    the order in which the document declares them, and the variables met are exactly the declared ones with
+    their declared types and shapes (`expectVars`, the right-hand side of `C11_parse`). -/
+theorem C10_decode_order (pre : List (Str × Str)) (name : Str) (s : Spec)
+    (hok : s.ok) (hres : refsResolve s) (hn : distinctNodes s) (hd : distinctDims s) :
+    decodeOrder (renderRoot pre name s) = .ok (expectVars s) :=
+  decodeOrder_render pre name s hok hres hn hd
+
+/-- the dataset tree loses and duplicates nothing: `walk` meets every declared variable exactly once
+    (in another order: the members of a group come before the variables declared ahead of it) -/
+theorem C10_walk_complete (pre : List (Str × Str)) (name : Str) (s : Spec)
+    (hok : s.ok) (hres : refsResolve s) (hn : distinctNodes s) (hd : distinctDims s) :
+    ∃ ws, datasetWalk (renderRoot pre name s) = .ok ws ∧ ws.Perm (expectVars s) :=
+  datasetWalk_perm pre name s hok hres hn hd
+
+/-- … and the re-sorting is needed: with a variable declared ahead of a group, `walk` order is not document order -/
+theorem C10_walk_is_not_document_order :
+    (datasetWalk (renderRoot [] "d".toList
+      (.var ⟨"Int8".toList, "a".toList, [], [], []⟩ (.group "g".toList (.var ⟨"Int8".toList, "b".toList, [], [], []⟩ .nil) .nil)))).map
+        (·.map (·.key)) = .ok ["/g/b".toList, "a".toList] := by rfl
+
+/-- `get_count` / `decode_variable` need the element count and the item size of a parsed variable -/
+def recLayout (itemsize : VarRec → Nat) (r : VarRec) : Layout :=
+  ⟨r.shape.foldl (fun a n => a * n.toNat) 1, itemsize r⟩
+
+/-- **Whole response, order included**: the DMR chunk of a response declares `s` (ElementTree, `tree`, is
+    trusted for text → element tree); the sender serialised one item list per declared variable, in document order
+    (`ss` matches `expectVars s` in count and item size). Then for any chunking and either byte order the client
+    recovers every variable's values — each value list is cut from the offset its declaration implies. -/
+theorem C10_response_document_order (little : Bool) (tree : Bytes → XNode) (itemsize : VarRec → Nat)
+    (dmr : Bytes) (pre : List (Str × Str)) (name : Str) (s : Spec) (ss : List Sent) (chunks : List Bytes)
+    (htree : tree dmr = renderRoot pre name s)
+    (hok : s.ok) (hres : refsResolve s) (hn : distinctNodes s) (hdims : distinctDims s)
+    (hss : ss.map Sent.layout = (expectVars s).map (recLayout itemsize))
+    (hd : dmr.length < 2 ^ 24) (hs : ∀ x ∈ ss, SentOk x) (hc : ∀ c ∈ chunks, c.length < 2 ^ 24)
+    (hp : chunks.flatten = serialise little ss) :
+    unpackResponse true
+        (fun b => match decodeOrder (tree b) with
+          | .ok rs => .ok (rs.map (recLayout itemsize))
+          | .error _ => .error .keyError)
+        (encodeResponse little dmr chunks)
+      = .ok (dmr, little, ss.map fun x => ⟨x.values, some (swapped little x.checksum)⟩) := by
+  apply C10_response little _ dmr ss chunks hd _ hs hc hp
+  simp only [htree, C10_decode_order pre name s hok hres hn hdims, hss]
 
 /-! ### non-vacuity -/
 
@@ -70,5 +122,10 @@ example : SentOk ⟨2, [1, 65535], 7⟩ := ⟨by decide, by decide⟩
 example : unpackVars false [⟨2, 2⟩] (serialise false [⟨2, [1, 65535], 7⟩])
     = .ok [⟨[1, 65535], some 117440512⟩] := by rfl
 example : serialise true [⟨2, [1, 65535], 7⟩] = [1, 0, 255, 255, 7, 0, 0, 0] := by decide
+
+example : distinctNodes Pydap.C11.demo := by unfold distinctNodes; decide
+example : decodeOrder (renderRoot [] "ds".toList Pydap.C11.demo) = .ok (expectVars Pydap.C11.demo) :=
+  C10_decode_order [] _ _ Pydap.C11.demo_ok Pydap.C11.demo_refs (by unfold distinctNodes; decide)
+    (by unfold distinctDims; decide)
 
 end Pydap.C10
